@@ -64,9 +64,12 @@ def mutants(rng, data, n):
             v = _get(b, pos, n_, big)
             _put(b, pos, n_, max(0, v + rng.choice([-1, 1, 2, -2, 4, 40, 64])) if f != "shstrndx" else rng.randrange(0, 9), big)
         elif k == 4:
-            b[5] = rng.choice([0, 1, 2, 3])            # EI_DATA
+            # EI_DATA.  An ELF64 file read in the other byte order has offsets above 2^40: whether fseek() accepts those
+            # depends on the file system (ext4: EINVAL above 16 TiB), which is outside the model
+            b[5] = rng.choice([0, 1, 2, 3] if L["cls"] == 1 else [0, 3, b[5]])
         elif k == 5:
-            b[4] = rng.choice([0, 1, 2, 3])            # EI_CLASS
+            # EI_CLASS: an ELF32 header read as ELF64 gives such offsets too
+            b[4] = rng.choice([0, 1, 3] if L["cls"] == 1 else [0, 1, 2, 3])
         elif k in (6, 7, 8) and L["shnum"]:
             i = rng.randrange(L["shnum"])
             f = rng.choice(["name", "type", "flags", "addr", "offset", "size", "size", "flags"])
